@@ -436,6 +436,58 @@ theorem C20_reject_malformed :
     | [_], _ => rfl
     | _ :: _ :: _, h => simp at h; omega
 
+/-- `InstanceName.GetDigestFunction(e, fallbackHashLength)`: a value that is neither `UNKNOWN` nor
+one of `SupportedDigestFunctions` is rejected *whatever the fallback hash length* (the CAS and AC
+servers pass the length of the first hash of the request); an accepted value yields the function
+with that very number, and only `UNKNOWN` is inferred from the length. -/
+theorem C20_unsupported_function_rejected :
+    (∀ (e : Int) (n : Nat), e ≠ 0 → (∀ k ∈ supportedEnums, e ≠ (k : Int)) →
+      getDigestFunctionEnum e n = .error .unknownFunction) ∧
+    (∀ (e : Int) (n : Nat) (v : Nat), getDigestFunctionEnum e n = .ok v →
+      v ∈ supportedEnums ∧ (e = (v : Int) ∨ e = 0)) := by
+  have hkeys : ∀ r ∈ byEnum, r.1 ∈ supportedEnums ∧ r.1 = r.2.1 := by decide
+  constructor
+  · intro e n h0 hns
+    simp only [getDigestFunctionEnum]
+    by_cases hneg : e < 0
+    · simp [hneg]
+    · rw [if_neg hneg]
+      have hnat : e.toNat ≠ 0 := by omega
+      cases hf : byEnum.find? (fun r => decide (r.1 = e.toNat)) with
+      | none => simp [getBareFunction, hnat, hf]
+      | some r =>
+        exfalso
+        have hm := List.mem_of_find?_eq_some hf
+        have hp := List.find?_some hf
+        simp only [decide_eq_true_eq] at hp
+        exact hns r.1 (hkeys r hm).1 (by omega)
+  · intro e n v h
+    simp only [getDigestFunctionEnum] at h
+    by_cases hneg : e < 0
+    · simp [hneg] at h
+    · rw [if_neg hneg] at h
+      cases hg : getBareFunction e.toNat n with
+      | none => simp [hg] at h
+      | some f =>
+        simp only [hg, Except.ok.injEq] at h
+        subst h
+        have hsup : SupportedFn f := KnownFn.supported ⟨_, _, hg⟩
+        refine ⟨hsup.mem, ?_⟩
+        by_cases h0 : e.toNat = 0
+        · right; omega
+        · left
+          simp only [getBareFunction, if_neg h0, Option.map_eq_some_iff] at hg
+          obtain ⟨r, hr, rfl⟩ := hg
+          have h1 := List.find?_some hr
+          simp only [decide_eq_true_eq] at h1
+          have h2 := (hkeys r (List.mem_of_find?_eq_some hr)).2
+          simp only
+          omega
+
+example : getDigestFunctionEnum 4 64 = .error .unknownFunction ∧ getDigestFunctionEnum (-1) 64 = .error .unknownFunction ∧
+    getDigestFunctionEnum 11 128 = .error .unknownFunction ∧ getDigestFunctionEnum 0 64 = .ok 1 ∧
+    getDigestFunctionEnum 9 40 = .ok 9 := by decide
+
 /-- The model's parsers never reach a `panic` outcome, on any input whatsoever.  (That the *Go*
 parsers do not panic on arbitrary bytes is not a Lean theorem: it is checked by the malformed
 stream of the correspondence run under `recover`, with these model functions predicting the
